@@ -439,6 +439,8 @@ def digest(iso):
         out.append(iso.udf_anchors[-1].extent_location())
         lvi = iso.udf_logical_volume_integrity
         out.extend([lvi.size_tables[0] if hasattr(lvi, 'size_tables') and lvi.size_tables else 0])
+        out.append(lvi.logical_volume_contents_use.unique_id)
+        out.extend([lvi.logical_volume_impl_use.num_files, lvi.logical_volume_impl_use.num_dirs])
         q = [iso.udf_root]
         while q:
             fe = q.pop(0)
